@@ -55,8 +55,12 @@ def parseHeader (buf : Bytes) : Option Hdr :=
 
 /-! ### encoder -/
 
+/-- the payload type is the constant `payloadType = 14` of the package (static RTP/AVP assignment
+for MPA); `EncCfg.pt` is not used by this format -/
+def payloadType : UInt8 := UInt8.ofNat CodecAudio.mpeg1audioPayloadType
+
 structure Enc where
-  cfg : EncCfg            -- `pt` is the constant 14
+  cfg : EncCfg
   seq : UInt16
 deriving Repr
 
@@ -64,7 +68,7 @@ def lenAggregated (frames : List Bytes) (add : Option Bytes) : Nat :=
   4 + totalLen frames + (match add with | some a => a.length | none => 0)
 
 def writeAggregated (c : EncCfg) (frames : List Bytes) (ts : UInt32) (sq : UInt16) : List Pkt :=
-  [{ pt := c.pt, seq := sq, ts := ts, ssrc := c.ssrc, marker := true,
+  [{ pt := payloadType, seq := sq, ts := ts, ssrc := c.ssrc, marker := true,
      payload := [0, 0, 0, 0] ++ frames.flatten }]
 
 /-- the `for i := range ret` loop of `writeFragmented`: `n` packets still to emit, `pos` bytes
@@ -72,10 +76,10 @@ already sent, `rest = frame[pos:]` -/
 def emitFrag (c : EncCfg) (ts : UInt32) (avail : Nat) : Nat → UInt16 → Nat → Bytes → List Pkt
   | 0, _, _, _ => []
   | 1, sq, pos, rest =>
-    [{ pt := c.pt, seq := sq, ts := ts, ssrc := c.ssrc, marker := true,
+    [{ pt := payloadType, seq := sq, ts := ts, ssrc := c.ssrc, marker := true,
        payload := [0, 0] ++ be16 pos ++ rest }]
   | n + 2, sq, pos, rest =>
-    { pt := c.pt, seq := sq, ts := ts, ssrc := c.ssrc, marker := true,
+    { pt := payloadType, seq := sq, ts := ts, ssrc := c.ssrc, marker := true,
       payload := [0, 0] ++ be16 pos ++ rest.take avail }
       :: emitFrag c ts avail (n + 1) (sq + 1) (pos + (rest.take avail).length) (rest.drop avail)
 
